@@ -525,7 +525,7 @@ func C15Spec() *runner.Spec {
 	return &runner.Spec{
 		Property: "C15", Engine: "inputx", Level: "model_checking",
 		Jobs: C15Jobs,
-		Rule:   "every operation (17 request kinds, the three completion verbs separately) x protocol {HTTP, HTTP GET task links, gRPC} x every Status* constant parsed from the working tree's status.go x delivery {response status, t_api.Error with and without cause} x response shape {every optional part present, optional pointers nil / empty lists, no resource}, through the real gin and grpc-go servers in front of a stub kernel; plus the logical request of every operation sent through both protocols and compared with what reaches the kernel; distinct = distinct (status, delivery, rendered code) triples per operation and protocol",
+		Rule:   "every operation (17 request kinds, the three completion verbs separately) x protocol {HTTP, HTTP GET task links, gRPC} x every Status* constant parsed from the working tree's status.go x delivery {response status, t_api.Error with and without cause} x response shape {every optional part present, optional pointers nil / empty lists, no resource}, through the real gin and grpc-go servers in front of a stub kernel; plus the logical request of every operation (for path-borne ids also with inner, trailing and leading slashes) sent through both protocols and compared with what reaches the kernel; distinct = distinct (status, delivery, rendered code) triples per operation and protocol",
 		Assume: []string{"gin / grpc-go wire handling is trusted; success statuses per operation are transcribed from the coroutines; application statuses (<50000) are delivered as response statuses, platform statuses and 40404 as errors"},
 		QuickS: 120, ThoroughS: 300,
 	}
